@@ -21,6 +21,9 @@ def server_identity():
 class Sandwich:
     def __init__(self, loop, inner_factory, backend="pyopenssl", log=None, client_identity=None,
                  peername=("192.0.2.7", 40001), request_client_cert=True, server_ident=None, tls_max=None, capacity=None, captured=None):
+        from .sim import install_loop_wall_clock
+
+        install_loop_wall_clock()
         self.loop = loop
         self.backend = backend
         self.log = log if log is not None else []
